@@ -606,6 +606,8 @@ class RangeDimension(Dimension):
     def ticks(self, ticks):
         if np.any(np.diff(ticks) < 0):
             raise ValueError("Ticks are not given in an ascending order.")
+        # convert first: ticks that are not numbers must not cost the dimension its link
+        ticks = np.array(ticks, dtype=DataType.Double)
         if self.has_link:
             # unlick object and set ticks
             self.remove_link()
